@@ -71,7 +71,7 @@ def _base(draw, tier, nugget=False):
     else:
         case["mode_no"] = draw(st.sampled_from([8, 32, 100]))
         # mcmc on numerical-Hankel spectra is slow and irrelevant for determinism
-        case["sampling"] = draw(st.sampled_from(["auto", "auto", "inversion" if spec["cls"] in ("Gaussian", "Exponential") and dim < 3 else "auto", "mcmc"]))
+        case["sampling"] = draw(st.sampled_from(["auto", "auto", "inversion" if spec["cls"] in ("Gaussian", "Exponential") else "auto", "mcmc"]))
         if g == "VectorField":
             case["mean_u"] = draw(st.floats(0.2, 3.0))
     return case
@@ -260,7 +260,7 @@ def gen_history(draw, tier="quick", twin=False):
             # a new seed *next to* the current one (e.g. 20170519 -> 20170520): relative to the running seed
             op["near"] = draw(st.sampled_from([None, None, 1, -1, 7, 1000]))
         elif k == "param":
-            names = ["var", "len_scale"] + (["anis", "angles"] if dim > 1 and g != "VectorField" else []) + (["opt"] if spec["opt"] else [])
+            names = ["var", "len_scale", "rescale"] + (["anis", "angles"] if dim > 1 and g != "VectorField" else []) + (["opt"] if spec["opt"] else [])
             op["name"] = draw(st.sampled_from(names))
             op["factor"] = draw(st.one_of(logfloat(1.05, 4.0), logfloat(0.25, 0.95)))
             op["idx"] = draw(st.integers(0, 2))
@@ -299,6 +299,8 @@ def _apply_param(model, op, spec):
         model.var = model.var * f
     elif name == "len_scale":
         model.len_scale = model.len_scale * f
+    elif name == "rescale":
+        model.rescale = model.rescale * f
     elif name == "anis":
         a = np.array(model.anis, dtype=float)
         a[op["idx"] % len(a)] *= f
@@ -360,7 +362,7 @@ def _net_change_in_isclose_window(srf):
     a, b = srf.generator.model, srf.model
 
     def par(m):
-        return [float(m.var), float(m.len_scale), float(m.nugget)] + [float(x) for x in m.anis] + [float(x) for x in m.angles] + [float(getattr(m, o)) for o in m.opt_arg]
+        return [float(m.var), float(m.len_scale), float(m.nugget), float(m.rescale)] + [float(x) for x in m.anis] + [float(x) for x in m.angles] + [float(getattr(m, o)) for o in m.opt_arg]
 
     pa, pb = par(a), par(b)
     # own evaluation of the window (not the library's ==, which is part of what is being tested)
